@@ -5,6 +5,7 @@ go 1.22.5
 require (
 	github.com/getkin/kin-openapi v0.0.0
 	github.com/oasdiff/yaml v0.0.0-20250309154309-f31be36b4037
+	github.com/oasdiff/yaml3 v0.0.0-20250309153720-d2182401db90
 )
 
 require (
@@ -14,7 +15,6 @@ require (
 	github.com/josharian/intern v1.0.0 // indirect
 	github.com/mailru/easyjson v0.7.7 // indirect
 	github.com/mohae/deepcopy v0.0.0-20170929034955-c48cc78d4826 // indirect
-	github.com/oasdiff/yaml3 v0.0.0-20250309153720-d2182401db90 // indirect
 	github.com/perimeterx/marshmallow v1.1.5 // indirect
 	gopkg.in/yaml.v3 v3.0.1 // indirect
 )
